@@ -9,7 +9,8 @@ open NumOps
 
 /-- Deviations of the code from the property, switched per run (DESIGN 4.4). -/
 structure FmtQuirks where
-  /-- precision 0 still prints one fractional digit (`for _ in 1..0` + final digit) -/
+  /-- with zero decimals allowed (precision 0, or 16 significant digits already used by the
+  integer part) one fractional digit is still printed (`for _ in 1..0` + final digit) -/
   precisionZeroOneDigit : Bool := false
 
 def fmtAsIs : FmtQuirks := { precisionZeroOneDigit := true }
@@ -40,12 +41,14 @@ def fracDigits {α} [NumOps α] (q : FmtQuirks) (precision : Nat) (s : α) : Lis
   let frac := fract s
   let whole := truncAbs s
   if isZero frac then ([], whole)
-  else if precision == 0 ∧ !q.precisionZeroOneDigit then
-    -- repaired behaviour: round to an integer, half away from zero
-    if roundAbs (mul10 frac) ≥ 5 then ([], addOne whole) else ([], whole)
   else
     let maxDecimals := 16 - log10ceil whole
-    let n := (min maxDecimals precision) - 1
+    let decimals := min maxDecimals precision
+    if decimals == 0 ∧ !q.precisionZeroOneDigit then
+      -- repaired behaviour: no room for decimals, round to an integer, half away from zero
+      if geHalf frac then ([], addOne whole) else ([], whole)
+    else
+    let n := decimals - 1
     let (dec, frac) := digitLoop n frac []
     if isZero frac then (dec, whole)
     else
